@@ -136,6 +136,19 @@ Definition ecdf (m : ecdf_method) (x : list Q) (y : Q) : Q :=
 Definition qmap (em : ecdf_method) (im : iecdf_method) (x y : list Q) (v : Q) : Q :=
   iecdf im y (ecdf em x v).
 
+(** quantile_map_x_on_y_non_parametically(x, y, mode="normal"): the sample mapped through its own ECDF *)
+Definition xony_normal (em : ecdf_method) (im : iecdf_method) (x y : list Q) : list Q :=
+  map (qmap em im x y) x.
+
+(** quantile_map_x_on_y_non_parametically(x, y, mode="isimipv3.0"):
+    p_x = (scipy.stats.rankdata(x) - 1) / n with average ranks, then np.interp(p_x, linspace(0, 1, m), sort(y)),
+    which is the "linear" quantile of y at p_x *)
+Definition rank_p (x : list Q) (v : Q) : Q :=
+  let less := zlen (filter (fun u => Qlt_bool u v) x) in
+  let leq := zlen (filter (fun u => Qle_bool u v) x) in
+  Qred (inject_Z (less + leq - 1) / 2 / inject_Z (zlen x)).
+Definition xony_isimip (x y : list Q) : list Q := map (fun v => iecdf linear y (rank_p x v)) x.
+
 (** ... _with_constant_extrapolation *)
 Definition qmap_extrap (em : ecdf_method) (im : iecdf_method) (x y : list Q) (v : Q) : Q :=
   let xmin := QL.qmin x in let xmax := QL.qmax x in
